@@ -12,11 +12,14 @@ IntItem(x)  == [k |-> "int",  x |-> x, b |-> <<>>]
 StrItem(s)  == [k |-> "str",  x |-> 0, b |-> s]      \* s contains no NUL (caller's obligation: write_string asserts it)
 DataItem(d) == [k |-> "data", x |-> 0, b |-> d]
 RawItem(d)  == [k |-> "raw",  x |-> 0, b |-> d]
+UuidItem(d) == [k |-> "uuid", x |-> 0, b |-> d]      \* write_uuid (feature `uuid`): the 16 bytes of the UUID, raw
+UUIDLEN == 16
 
 Enc(it) == CASE it.k = "int"  -> Encode(it.x)
              [] it.k = "str"  -> it.b \o <<0>>
              [] it.k = "data" -> Encode(Len(it.b)) \o it.b
              [] it.k = "raw"  -> it.b
+             [] it.k = "uuid" -> it.b
 
 Take(s, n) == SubSeq(s, 1, Min2(n, Len(s)))
 Zeros(n) == [i \in 1..n |-> 0]
@@ -29,11 +32,12 @@ Fits(len, cap, it) == len + Len(Enc(it)) <= cap
 WriteBuf(buf, cap, it) == Take(buf \o Enc(it), cap)
 
 (* ---------------------------- reads ----------------------------------- *)
-\* a read operation: [o |-> "int" | "str" | "data" | "raw" | "rest" | "finish", n |-> length for raw]
+\* a read operation: [o |-> "int" | "str" | "strsan" | "data" | "raw" | "uuid" | "rest" | "finish", n |-> length for raw]
+\* ("strsan" is the composition the generated protocol code uses: sanitize(read_string()?)?)
 Op(o, n) == [o |-> o, n |-> n]
 MatchingOp(it) == IF it.k = "raw" THEN Op("raw", Len(it.b)) ELSE Op(it.k, 0)
 
-\* result of a read at offset pos (0-based) of data.  res: "ok" | "end" (UnexpectedEnd);
+\* result of a read at offset pos (0-based) of data.  res: "ok" | "end" (UnexpectedEnd) | "ctrl" (ControlCharacters, strsan only);
 \* v: integer result; b: byte-string result; w: warnings; to: offset afterwards
 Res(res, v, b, w, to) == [res |-> res, v |-> v, b |-> b, w |-> w, to |-> to]
 Fail(data, w) == Res("end", 0, <<>>, w, Len(data))          \* every failure uses the input up ("poisons")
@@ -49,6 +53,12 @@ RData(data, pos) == LET d == DecodeAt(data, pos) IN
     ELSE Res("ok", 0, SubSeq(data, pos + d.used + 1, pos + d.used + d.vimpl), d.w, pos + d.used + d.vimpl)
 RRaw(data, pos, n) ==
     IF n > Len(data) - pos THEN Fail(data, {}) ELSE Res("ok", 0, SubSeq(data, pos + 1, pos + n), {}, pos + n)
+\* read_uuid = read_raw(16) turned into a Uuid (a copy of the 16 bytes)
+RUuid(data, pos) == RRaw(data, pos, UUIDLEN)
+\* sanitize: a string with a control character (< 0x20) is refused; the cursor stays behind the NUL
+HasCtrl(b) == \E i \in 1..Len(b) : b[i] < 32
+RStrSan(data, pos) == LET r == RStr(data, pos) IN
+    IF r.res = "ok" /\ HasCtrl(r.b) THEN Res("ctrl", 0, <<>>, {}, r.to) ELSE r
 RRest(data, pos) == Res("ok", 0, SubSeq(data, pos + 1, Len(data)), {}, Len(data))
 \* finish: "ExcessData" unless everything was read; demo data is padded to a multiple of four
 \* bytes, so up to three trailing zero bytes are not excess there
@@ -59,6 +69,8 @@ RFinish(data, pos, dm) == LET rest == SubSeq(data, pos + 1, Len(data))
 
 Read(data, pos, dm, op) == CASE op.o = "int"    -> RInt(data, pos)
                              [] op.o = "str"    -> RStr(data, pos)
+                             [] op.o = "strsan" -> RStrSan(data, pos)
+                             [] op.o = "uuid"   -> RUuid(data, pos)
                              [] op.o = "data"   -> RData(data, pos)
                              [] op.o = "raw"    -> RRaw(data, pos, op.n)
                              [] op.o = "rest"   -> RRest(data, pos)
